@@ -359,4 +359,34 @@ PROPS = {
             "machine arithmetic: parens/line counters and offsets cannot overflow while the total input stays below isize::MAX octets (counters_ok)",
         ],
     },
+    "C05": {
+        "level": "other",
+        "units": [],
+        "kani": [
+            {"group": "g0", "name": "c05_a_roundtrip", "kind": "complete", "tier": "quick",
+             "what": "A: every address: rdlen == 4 == octets written; parse(compose(x)) == x consuming all; canonical form identical"},
+            {"group": "g0", "name": "c05_a_parse_any_rdata", "kind": "complete", "tier": "quick",
+             "what": "A: any RDATA of 0..=6 octets: accepted iff >= 4 octets, consumes exactly 4, re-composes to the same octets"},
+            {"group": "g0", "name": "c05_aaaa_roundtrip", "kind": "complete", "tier": "quick",
+             "what": "AAAA: every address: rdlen == 16 == octets written; parse(compose(x)) == x"},
+            {"group": "g0", "name": "c05_ds_roundtrip_bounded", "kind": "bounded", "tier": "quick",
+             "bound": "all scalar fields, digest 0..=6 octets", "what": "DS: rdlen exact, round trip, re-compose fixpoint"},
+            {"group": "g0", "name": "c05_dnskey_roundtrip_bounded", "kind": "bounded", "tier": "quick",
+             "bound": "all scalar fields, key 0..=6 octets", "what": "DNSKEY: rdlen exact, round trip, re-compose fixpoint"},
+            {"group": "g0", "name": "c05_tlsa_sshfp_roundtrip_bounded", "kind": "bounded", "tier": "quick",
+             "bound": "all scalar fields, data 0..=6 octets", "what": "TLSA, SSHFP: rdlen exact, round trip, re-compose fixpoint"},
+            {"group": "g0", "name": "c05_hinfo_roundtrip_bounded", "kind": "bounded", "tier": "thorough", "timeout": 600,
+             "bound": "two character strings of 0..=3 octets", "what": "HINFO: rdlen exact, round trip, re-compose fixpoint"},
+            {"group": "g0", "name": "c05_mx_srv_roundtrip_bounded", "kind": "bounded", "tier": "thorough", "timeout": 1500,
+             "bound": "one fixed mixed-case two-label name, all scalar fields",
+             "what": "MX, SRV: rdlen exact; canonical form == wire form with exactly the embedded name lower-cased (RFC 4034 6.2 / RFC 6840 5.1)"},
+        ],
+        "explanation": "bounded/complete contract checking with Kani of the compose/parse/rdlen quadruple on the compiled, "
+                       "macro-generated generic code, for the record types CBMC can handle: A and AAAA complete over all values; DS, "
+                       "DNSKEY, TLSA, SSHFP, HINFO with small symbolic octet fields; MX and SRV with one fixed name (canonical "
+                       "lower-casing).",
+        "not_covered": "All other types (NS-family, SOA, TXT, NAPTR, CAA, RRSIG, NSEC, NSEC3, NSEC3PARAM, SVCB/HTTPS, OPT and its "
+                       "options, TSIG, ZONEMD, IPSECKEY, OPENPGPKEY, CDS/CDNSKEY, Unknown/opaque carry), symbolic names inside RDATA "
+                       "(CBMC does not finish on symbolic names), LongRecordData limits near 65535 octets.",
+    },
 }
